@@ -32,6 +32,8 @@ pub struct NewStyleIntConversion(bool);
 
 impl NewStyleIntConversion {
     pub fn new(mut new_val: bool) -> NewStyleIntConversion {
+        #[cfg(feature = "verif-hooks")]
+        crate::verif_hooks::point(crate::verif_hooks::POINT_INTMODE_SET);
         NewStyleIntConversion(NEW_COMPILATION_LEVEL_INT.with(|v| {
             let mut val_ref = v.borrow_mut();
             swap(&mut new_val, &mut val_ref);
@@ -41,10 +43,17 @@ impl NewStyleIntConversion {
     fn setting() -> bool {
         NEW_COMPILATION_LEVEL_INT.with(|v| *v.borrow())
     }
+    /// The current thread's integer conversion mode, for verification harnesses.
+    #[cfg(feature = "verif-hooks")]
+    pub fn verif_setting() -> bool {
+        Self::setting()
+    }
 }
 
 impl Drop for NewStyleIntConversion {
     fn drop(&mut self) {
+        #[cfg(feature = "verif-hooks")]
+        crate::verif_hooks::point(crate::verif_hooks::POINT_INTMODE_RESTORE);
         NEW_COMPILATION_LEVEL_INT.with(|v| *v.borrow_mut() = self.0)
     }
 }
